@@ -5,12 +5,14 @@ CONSTANTS
     LibModes = {"startup", "dlopen"}
     SessModes = {"launch"}
     LibBiases = {300}
+    LibBases = {0, 60}
     Kinds = {"fn", "line", "addr"}
     MaxReq = 2
     OffsetRule = "bias"
     ReloadRule = "rearm"
     EarlyAddrRule = "defer"
     AttachRule = "rbrk"
+    ReqPlan = "free"
     Emit = "scn"
 SPECIFICATION Spec
 INVARIANTS RefSane InstalledAtTrueAddress ActiveWhenMapped SharedLibsAreMapped StopsWhereRequested NeverLost
